@@ -230,6 +230,8 @@ def main(tier):
     chk.extra["pasted_twice_pairs"] = {nm: (tobs["ti%d" % k]["outcome"], tobs["tm%d" % k]["outcome"]) for k, (nm, _, _) in enumerate(tw)}
     import macrograph
     macrograph.run(chk, tier, "C07")
+    import fixrel
+    fixrel.c07(chk, tier)
     import treemacro
     treemacro.run(chk, tier)
     chk.extra["macro_forms_accepted"] = accepted
@@ -249,6 +251,9 @@ def main(tier):
 
 def replay(path):
     rp = json.load(open(path))["replay"]
+    if rp.get("kind") in ("fxpair", "fxban"):
+        import fixrel
+        return fixrel.replay("C07", rp)
     chk = Check("C07", "quick")
     chk.evaluations = 1
     if rp["kind"] == "macro_pair":
